@@ -62,7 +62,7 @@ theorem dictionarySize_eq (o o' : TokObj) (h0 : o.dictionarySize_ = 0) (h : cons
 theorem tokInit_eq' (ppqn : Option Int) (numTracks : Int) (pitchRange : Int × Int) (stepSizes noteValues : Option (List Int))
     (vb : Int) (tsRange : Int × Int) (running fuseTrk fuseVal fuseVel simplify : Bool) :
     tokInit ppqn numTracks pitchRange stepSizes noteValues vb tsRange running fuseTrk fuseVal fuseVel simplify =
-      match linkVelocityBins vb with
+      match linkVelocityBinsFn vb with
       | .error e => .error e
       | .ok bins =>
         let o := initObj ppqn numTracks pitchRange stepSizes noteValues bins tsRange running fuseTrk fuseVal fuseVel simplify
@@ -74,10 +74,10 @@ theorem tokInit_eq' (ppqn : Option Int) (numTracks : Int) (pitchRange : Int × I
 theorem tokInit_cfg (ppqn : Option Int) (numTracks : Int) (pitchRange : Int × Int) (stepSizes noteValues : Option (List Int))
     (vb : Int) (tsRange : Int × Int) (running fuseTrk fuseVal fuseVel simplify : Bool) (o : TokObj)
     (h : tokInit ppqn numTracks pitchRange stepSizes noteValues vb tsRange running fuseTrk fuseVal fuseVel simplify = .ok o) :
-    ∃ bins, linkVelocityBins vb = .ok bins ∧
+    ∃ bins, linkVelocityBinsFn vb = .ok bins ∧
       cfgOf o = cfgOf (initObj ppqn numTracks pitchRange stepSizes noteValues bins tsRange running fuseTrk fuseVal fuseVel simplify) := by
   rw [tokInit_eq'] at h
-  cases hb : linkVelocityBins vb with
+  cases hb : linkVelocityBinsFn vb with
   | error e => rw [hb] at h; cases h
   | ok bins =>
     rw [hb] at h
@@ -132,7 +132,7 @@ theorem initObj_of_nodup (ppqn : Option Int) (numTracks : Int) (pitchRange : Int
 example : ∃ o, tokInit none 1 (60, 62) (some [4, 4, 8]) (some [12, 12, 24]) 1 (2, 16) true true true true true = .ok o ∧
     o.stepSizes = [4, 8] ∧ o.noteValues = [12, 24] ∧ C02.CfgWF (cfgOf o) ∧
     o.dictionarySize_ = o.dictionary.length ∧ o.dictionary.length = o.inverseDictionary.length := by
-  have hb : linkVelocityBins 1 = .ok [127] := by decide
+  have hb : linkVelocityBinsFn 1 = .ok [127] := by decide +kernel
   have h := tokInit_eq' none 1 (60, 62) (some [4, 4, 8]) (some [12, 12, 24]) 1 (2, 16) true true true true true
   rw [hb] at h
   refine ⟨_, h, ?_⟩
